@@ -228,6 +228,34 @@ def r2_nobody_writes(ctx: Ctx) -> None:
                                 ctx.fail(f"{mi.relpath}:<module>:{unparse(st)[:50]}", "import-time write to another module's object")
 
 
+ONE_SHOT = {"zip", "map", "filter", "iter", "enumerate", "reversed", "open", "itertools.chain", "itertools.count", "itertools.cycle", "itertools.product"}
+
+
+def r7_no_module_level_iterators(ctx: Ctx) -> None:
+    """a module-level name bound to a one-shot iterator (zip / map / filter / iter / a generator expression ...) is process-lifetime state that
+    the first use consumes: the first assembly sees its items, every later one an exhausted iterator"""
+    n = 0
+    for mi in ctx.repo.modules.values():
+        for st in mi.tree.body:
+            if not (isinstance(st, (ast.Assign, ast.AnnAssign)) and getattr(st, "value", None) is not None):
+                continue
+            n += 1
+            v = st.value
+            tgt = st.targets[0] if isinstance(st, ast.Assign) else st.target
+            if not isinstance(tgt, ast.Name):
+                continue
+            one_shot = isinstance(v, ast.GeneratorExp) or (isinstance(v, ast.Call) and (dotted(v.func) or "") in ONE_SHOT)
+            if not one_shot:
+                continue
+            readers = [fn.where for fn in ctx.repo.all_functions() if fn.module is mi and any(isinstance(x, ast.Name) and x.id == tgt.id and isinstance(x.ctx, ast.Load) for x in ast.walk(fn.node))]
+            readers += [fn.where for om in ctx.repo.modules.values() if om is not mi and tgt.id in om.imports and om.imports[tgt.id][0] == mi.name
+                        for fn in ctx.repo.all_functions() if fn.module is om and any(isinstance(x, ast.Name) and x.id == tgt.id for x in ast.walk(fn.node))]
+            ctx.check(not readers, f"{mi.relpath}:<module>:{tgt.id}", f"`{unparse(st)[:60]}` is a one-shot iterator kept for the life of the process and read by {readers[:3]}: "
+                      "the first use consumes it, later assemblies find it empty")
+    ctx.count("module_assignments", n)
+    ctx.floor("module_assignments", 20)
+
+
 def r3_shared_buses_frozen(ctx: Ctx) -> None:
     buses, events = _module_bus_calls(ctx)
     for var, ev in events.items():
@@ -450,4 +478,4 @@ def r6_output_files_start_empty(ctx: Ctx) -> None:
     ctx.floor("output_opens", 2)
 
 
-RULES = [r1_census, r2_nobody_writes, r3_shared_buses_frozen, r4_per_instance_state, r5_shared_objects_not_passed_to_mutators, r6_output_files_start_empty]
+RULES = [r1_census, r2_nobody_writes, r3_shared_buses_frozen, r4_per_instance_state, r5_shared_objects_not_passed_to_mutators, r6_output_files_start_empty, r7_no_module_level_iterators]
